@@ -10,7 +10,20 @@ import (
 )
 
 func TestVerif(t *testing.T) {
+	api := &vmodel.QueueAPI{
+		New: func(less func(x, y interface{}) bool, si func(x interface{}, idx int)) interface{} {
+			return NewQueue(less, si)
+		},
+		Len:    func(q interface{}) int { return q.(*Queue).Len() },
+		Push:   func(q interface{}, x interface{}) { q.(*Queue).Push(x) },
+		Min:    func(q interface{}) interface{} { return q.(*Queue).Min() },
+		Pop:    func(q interface{}) interface{} { return q.(*Queue).Pop() },
+		Fix:    func(q interface{}, i int) { q.(*Queue).Fix(i) },
+		Remove: func(q interface{}, i int) { q.(*Queue).Remove(i) },
+		Array:  func(q interface{}) []interface{} { return q.(*Queue).heap.a },
+	}
 	vrep.Main(t, "github.com/google/licenseclassifier/stringclassifier/internal/pq", map[string]vrep.Harness{
+		"c20_queue_long": func(c *vrep.Ctx) { vmodel.CheckQueueLong(c, api) },
 		"c20_queue": func(c *vrep.Ctx) {
 			vmodel.CheckQueue(c, &vmodel.QueueAPI{
 				New: func(less func(x, y interface{}) bool, si func(x interface{}, idx int)) interface{} {
